@@ -20,7 +20,7 @@ LEVEL = "proof"
 MANIFEST = {
     "category": "proof",
     "text": "Coq theorems (unbounded in message count, sizes within the wire limit, every fragmentation, every socket back-pressure pattern, arbitrary input bytes) about a model of PeerChannelEncryptor and of PeerManager's read/write paths; the model is tied to the code every run by byte-for-byte functional correspondence against the real encryptor (Gallina ChaCha20-Poly1305/HKDF/SHA-256) and by predicting the real PeerManager's per-read observations on honest and corrupted streams; rotation thresholds and length limits are regenerated from the source.",
-    "note": "Assumed: ECDH symmetry and key-encoding laws (handshake theorem); per-stream INT-CTXT premise of the tamper theorem (a chunk differing from the honest ciphertext does not authenticate). AEAD correctness is proved for the executable instance. PeerManager beyond the reader/writer/gate fragments (timers, gossip back-pressure, multi-peer broadcast, start_batch) and lightning-net-tokio are validated or out of scope.",
+    "note": "Assumed: ECDH symmetry and key-encoding laws (handshake theorem); per-stream INT-CTXT premise of the tamper theorem (a chunk differing from the honest ciphertext does not authenticate). AEAD correctness is proved for the executable instance. PeerManager beyond the reader/writer/gate fragments (timers, gossip back-pressure, multi-peer broadcast) and lightning-net-tokio are validated or out of scope.",
     "technique": "machine-checked proof in Coq (induction over message lists and fragments, invariants) + differential correspondence with the implementation",
 }
 
@@ -1067,7 +1067,7 @@ def run(ctx):
         okm, _ = ctx.coq_make(["Model/NoiseInst.vo"])
     ctx.trusted_base += [
         "Coq 8.16.1 kernel + vm_compute (no native_compute)",
-        "tools/props/C15.py generate(): pattern extraction of the rotation thresholds, LN_MAX_MSG_LEN, the msg_len lower bound, NOISE_CK/NOISE_H",
+        "tools/props/C15.py generate(): pattern extraction of the rotation thresholds, LN_MAX_MSG_LEN, the msg_len lower bound, NOISE_CK/NOISE_H; ordered-anchors check of the Init gate position",
         "Model/Noise.v, Framing.v, PeerGate.v, PeerRead.v: hand transliterations, tied by functional correspondence (h_noise through lightning feature _verif_hooks; h_peer through the public PeerManager API)",
         "coq/Crypto (Gallina ChaCha20-Poly1305, HKDF, SHA-256), itself checked against RFC vectors and, here, against the real ciphertexts",
         "secp256k1 (public keys, encodings accepted, ECDH) enters the model as data produced by the Rust side",
